@@ -134,6 +134,7 @@ func workerMain(args []string) {
 	samples := fs.Int("samples", 4, "number of runs written out as samples")
 	sub := fs.String("sub", "", "sub-batch selector passed to the profile")
 	knownPath := fs.String("known", "", "file listing known findings (counted, not reported)")
+	tier := fs.String("tier", "quick", "quick or thorough: thorough widens the per-run bounds")
 	fs.Parse(args)
 	type knownT struct {
 		Signature      string `json:"signature"`
@@ -162,6 +163,7 @@ func workerMain(args []string) {
 		os.Exit(2)
 	}
 	subBatch = *sub
+	thorough = *tier == "thorough"
 	agg := newAgg(p.id)
 	rl := newRaceLog()
 	start := time.Now()
@@ -269,6 +271,7 @@ func replayMain(args []string) {
 		os.Exit(2)
 	}
 	subBatch = rf.Sub
+	thorough = rf.Tier == "thorough"
 	schedTarget = rf.Target
 	agg := newAgg(p.id)
 	rl := newRaceLog()
@@ -296,3 +299,14 @@ func replayMain(args []string) {
 }
 
 var subBatch string
+
+// thorough widens the per-run bounds (more tasks and operations, longer histories, longer inputs).
+var thorough bool
+
+// bound returns q in the quick tier and t in the thorough tier.
+func bound(q, t int) int {
+	if thorough {
+		return t
+	}
+	return q
+}
